@@ -55,8 +55,8 @@ Theorem s_single_sound p h fuel r : p <> [] ->
   forall m, In m r -> exists a len, m = SBound a len /\ occ_string p h a
                                    /\ forall c k, In c (s_cvec p) -> In k (cargs c) -> sget m k <> None.
 Proof.
-  intros Hne S m Hin. unfold single in S.
-  destruct (requested string_dom fuel (s_cvec p)) as [reqk| |] eqn:Rq; cbn in S; try discriminate.
+  intros Hne S m Hin. unfold single, single_ext in S.
+  destruct (requested string_dom fuel [] (s_cvec p)) as [reqk| |] eqn:Rq; cbn in S; try discriminate.
   destruct (s_requested_good _ _ _ Rq) as [Hg Hc].
   assert (Hcov : forall c, In c (s_cvec p) -> incl (cargs c) reqk).
   { intros c Hc' k Hk. apply Hc. apply in_flat_map. eauto. }
@@ -72,8 +72,8 @@ Theorem m_single_sound p h fuel r :
   forall m, In m r -> exists s a b, m = MBound s a b /\ occ_matrix p h s
                                    /\ forall c k, In c (m_cvec p) -> In k (cargs c) -> mmget m k <> None.
 Proof.
-  intros S m Hin. unfold single in S.
-  destruct (requested matrix_dom fuel (m_cvec p)) as [reqk| |] eqn:Rq; cbn in S; try discriminate.
+  intros S m Hin. unfold single, single_ext in S.
+  destruct (requested matrix_dom fuel [] (m_cvec p)) as [reqk| |] eqn:Rq; cbn in S; try discriminate.
   destruct (m_requested_good _ _ _ Rq) as [Hg Hc].
   assert (Hcov : forall c, In c (m_cvec p) -> incl (cargs c) reqk).
   { intros c Hc' k Hk. apply Hc. apply in_flat_map. eauto. }
